@@ -31,4 +31,16 @@ Example C08_nonvacuous :
   ended s = true /\ failed s = false /\ out s = [65;65;65;32;66;66;66;10]%N.
 Proof. vm_compute. auto. Qed.
 
+(* liveness (supporting the first clause): its premise [ended s = true] is met by every run - after the child has
+   closed the pipe, any continuation (ticks, late events, in any order) that polls at least (bytes still unread + 2)
+   times makes the reader return *)
+Definition C08_liveness_statement (reader : bool -> (nat -> bool) -> bool -> list ev -> rst) : Prop :=
+  forall tolerant sink stream es es',
+    2 + length (inner (reader tolerant sink stream (es ++ [Close]))) <= polls es' ->
+    ended (reader tolerant sink stream (es ++ Close :: es')) = true.
+
+Theorem C08_liveness_holds : C08_liveness_statement (run true).
+Proof. intros tolerant sink stream es es'. apply reader_terminates. Qed.
+
 Print Assumptions C08_holds.
+Print Assumptions C08_liveness_holds.
